@@ -253,7 +253,7 @@ func c02LaneReader(t *testing.T, r *sim.Run) {
 	rd := new(Reader)
 	ref := &refParser{}
 	nfiles := 1 + T.Intn(5, "nfiles")
-	opts := genTextOpts{}
+	opts := genTextOpts{crcrlf: true}
 	// systematic sweep (thorough tier): "sweep:<err|cut|none>:<offset>" forces one fault position on a one-file history
 	sweepKind, sweepOff := "", 0
 	if strings.HasPrefix(r.Param, "sweep:") {
@@ -457,7 +457,7 @@ func c02LaneFiles(t *testing.T, r *sim.Run) {
 	texts := make([][]byte, ndistinct)
 	paths := make([]string, ndistinct)
 	for i := range texts {
-		texts[i] = genBenchText(T, genTextOpts{})
+		texts[i] = genBenchText(T, genTextOpts{crcrlf: true})
 		paths[i] = filepath.Join(c02Tmp, fmt.Sprintf("in%d.txt", i))
 		if err := os.WriteFile(paths[i], texts[i], 0o644); err != nil {
 			panic(err)
